@@ -272,7 +272,7 @@ def main(argv=None):
     for name, param, wit, origin, func in cexs:
         cex = dict(property=prop, obligation=name, func=func, param=param, witness=wit, origin=origin)
         h = hashlib.sha256(json.dumps(cex, sort_keys=True, default=str).encode()).hexdigest()[:10]
-        path = os.path.join(ROOT, 'counterexamples', '%s_%s_%s.json' % (prop, name, h))
+        path = os.path.join(ROOT, 'counterexamples', '%s_%s_%s.json' % (prop, re.sub(r'[^A-Za-z0-9_.-]+', '_', name)[:60], h))
         with open(path, 'w') as f:
             json.dump(cex, f, indent=1, default=str)
         res = replay_cex(prop, path)
